@@ -85,6 +85,11 @@ pub fn gen_pcm(kind: &str, rng: &mut Rng, channels: usize, bps: u32, frames: usi
         }
         for c in 0..channels {
             let v: i64 = match kind {
+                // "ntc:<n>": n PCM frames of full-scale noise, then one constant per channel (history before a constant block)
+                k if k.starts_with("ntc:") => {
+                    let n: usize = k[4..].parse().unwrap_or(0);
+                    if i < n { rng.range(lo, hi) } else { cval[c] }
+                }
                 // one channel silent, the others active (hard-panned material)
                 "panfirst" => if c == 0 { 0 } else { rng.range(lo / 2, hi / 2) },
                 "panlast" => if c + 1 == channels { 0 } else { rng.range(lo / 2, hi / 2) },
